@@ -450,13 +450,15 @@ func c08Key(r *Run, t *tape.Tape) {
 	var k cose.Key
 	var err error
 	kb := ks.Bytes()
-	if mk, ok := keyInMemory(ks); ok && refcose.KeyConsistent(kb) == nil && t.Bool(1, 3, "c08.key.inmemory") {
+	if mk, ok := keyInMemory(ks); ok && refcose.KeyConsistent(kb) == nil && !ks.Unsupported && t.Bool(1, 3, "c08.key.inmemory") {
 		// a consistent Key value written down by the application itself (struct
 		// literal), never seen by the decoder: whatever MarshalCBOR makes of
 		// it - an error or bytes - the bytes must be acceptable to
 		// UnmarshalCBOR.  (Key.MarshalCBOR does not validate: an INCONSISTENT
 		// key built in memory is emitted and then refused by the decoder;
-		// such keys are outside the data model this property speaks about.)
+		// such keys are outside the data model this property speaks about, and
+		// so are keys on curves the library has no code for - Ed448, X448,
+		// X25519 - which the decoder refuses whatever their size.)
 		k = mk
 		r.Probe("key-built-in-memory")
 	} else {
